@@ -24,12 +24,11 @@ The model follows poulpy after the repairs docs/fixes/01–03 (gap region, rsh_a
    offset independent; what is missing for offset ≠ 0 is the end-game arithmetic of the limb / bit
    counters and the carry-propagation block of negative offsets.  0 disagreements / 0 oracle failures
    over all radix pairs 1..62² and all offsets in the correspondence.
-   `encode_decode`: `decodeCoefVec 64 b k (encodeCoefI64 b k size v) = ok v'` with `v' ≡ v (mod 2^k)` and
-   `v' = v` when the balanced expansion fits.  Proved: the encode half (`encode_value`,
-   `encode_frame_*`); the decode half is covered by the round-trip oracle over every (b,k). -/
+-/
 -/
 import Poulpy.Lemmas.NormFused
 import Poulpy.Lemmas.NormCross4
+import Poulpy.Lemmas.NormCodec
 
 namespace C08
 open NormL
@@ -407,6 +406,76 @@ theorem encode_frame_column (v : List Col) (n b col k : Nat) (data : List Int) (
     subst h
     unfold getCol setCol
     simp [List.getD_eq_getElem?_getD, List.getElem?_set, hc.symm]
+
+/-! ### encode → decode round trip -/
+
+/-- **round trip, `i64`** (`encode_vec_i64` / `encode_coeff_i64`, then `decode_coeff_i64`,
+`decode_vec_i64`, `decode_vec_i128`), for every `1 ≤ b ≤ 62`, `1 ≤ k ≤ size·b` and `|v| ≤ H`: all three
+decoders succeed and return `v − q·2^k` reduced to their width (`wrapN 64` / `wrapN 128`) — i.e. `v`
+modulo `2^k` (modulo `2^64` when `k ≥ 64`) — where `q` is the carry out of the balanced expansion; the
+expansion fits (`q = 0`, result `= v`) whenever `4·|v| < 2^k` (i.e. `|v| < 2^(k−2)`) and `b ≥ 2`. -/
+theorem encode_decode {b k aSize : Nat} {H : Int} (hr : HeadRoom 64 b (encLsh b k) H) (hb62 : b ≤ 62)
+    (hk : 1 ≤ k) (hsz : encSize b k ≤ aSize) (v : Int) (hv : |v| ≤ H) :
+    ∃ q : Int,
+      decodeCoefI64 b k (encodeCoefI64 b k aSize v) = .ok (wrapN 64 (v - q * 2 ^ k)) ∧
+      decodeCoefVec 64 b k (encodeCoefI64 b k aSize v) = .ok (wrapN 64 (v - q * 2 ^ k)) ∧
+      decodeCoefVec 128 b k (encodeCoefI64 b k aSize v) = .ok (wrapN 128 (v - q * 2 ^ k)) ∧
+      (2 ≤ b → 4 * |v| < 2 ^ k → q = 0) :=
+  encode_decode_roundtrip hr hb62 hk hsz v hv
+
+/-- corollary: for `|v| < 2^(k-2)` (and `v` an `i64`) the round trip is the identity -/
+theorem encode_decode_exact {b k aSize : Nat} {H : Int} (hr : HeadRoom 64 b (encLsh b k) H) (hb2 : 2 ≤ b) (hb62 : b ≤ 62)
+    (hk : 1 ≤ k) (hsz : encSize b k ≤ aSize) (v : Int) (hv : |v| ≤ H) (hsmall : 4 * |v| < 2 ^ k) (hv64 : |v| < 2 ^ 63) :
+    decodeCoefI64 b k (encodeCoefI64 b k aSize v) = .ok v ∧
+    decodeCoefVec 64 b k (encodeCoefI64 b k aSize v) = .ok v ∧
+    decodeCoefVec 128 b k (encodeCoefI64 b k aSize v) = .ok v := by
+  obtain ⟨q, h1, h2, h3, h4⟩ := encode_decode hr hb62 hk hsz v hv
+  have hq := h4 hb2 hsmall
+  subst hq
+  simp only [zero_mul, sub_zero] at h1 h2 h3
+  have e64 : wrapN 64 v = v := wrapN_eq_abs (by norm_num) (by simpa using hv64)
+  have e128 : wrapN 128 v = v := wrapN_eq_abs (by norm_num) (by
+    have : (2 : Int) ^ 63 ≤ 2 ^ (128 - 1) := by norm_num
+    linarith)
+  rw [e64] at h1 h2; rw [e128] at h3
+  exact ⟨h1, h2, h3⟩
+
+example : decodeCoefVec 64 5 7 (encodeCoefI64 5 7 3 (-30)) = .ok (-30) :=
+  (encode_decode_exact (b := 5) (k := 7) (aSize := 3) (H := 2 ^ 40)
+    ⟨by norm_num, by decide, by norm_num, by norm_num, by norm_num⟩ (by norm_num) (by norm_num) (by norm_num) (by decide)
+    (-30) (by norm_num) (by norm_num) (by norm_num)).2.1
+
+/-- a value at the edge `v = 2^(k-1)` decodes to its negative representative (`≡ v mod 2^k`) -/
+example : decodeCoefVec 64 5 7 (encodeCoefI64 5 7 3 64) = .ok (-64) := by rfl
+
+/-- **round trip, `i128`** (`encode_vec_i128`, `|v| ≤ 2^126`): same statement -/
+theorem encode128_decode {b k aSize : Nat} {H : Int} (hr : HeadRoom 64 b (encLsh b k) H) (hH : 2 ^ (b - 1) ≤ H)
+    (hb62 : b ≤ 62) (hk : 1 ≤ k) (hsz : encSize b k ≤ aSize) (v : Int) (hv : |v| ≤ 2 ^ 126) :
+    ∃ q : Int,
+      decodeCoefI64 b k (encodeCoefI128 b k aSize v) = .ok (wrapN 64 (v - q * 2 ^ k)) ∧
+      decodeCoefVec 64 b k (encodeCoefI128 b k aSize v) = .ok (wrapN 64 (v - q * 2 ^ k)) ∧
+      decodeCoefVec 128 b k (encodeCoefI128 b k aSize v) = .ok (wrapN 128 (v - q * 2 ^ k)) ∧
+      (2 ≤ b → 4 * |v| < 2 ^ k → q = 0) :=
+  encode128_decode_roundtrip hr hH hb62 hk hsz v hv
+
+example : decodeCoefVec 128 20 100 (encodeCoefI128 20 100 5 (2 ^ 90 + 12345)) = .ok (2 ^ 90 + 12345) := by
+  obtain ⟨q, _, _, h3, h4⟩ := encode128_decode (b := 20) (k := 100) (aSize := 5) (H := 2 ^ 40)
+    ⟨by norm_num, by decide, by norm_num, by norm_num, by norm_num⟩ (by norm_num) (by norm_num) (by norm_num) (by decide)
+    (2 ^ 90 + 12345) (by norm_num)
+  have hq := h4 (by norm_num) (by norm_num)
+  subst hq
+  rw [h3]
+  simp only [zero_mul, sub_zero]
+  congr 1
+
+/-- **`decode_vec_float`**: the dyadic pair `(m, e)` of the model is the exact rational value of the
+limbs: `m · 2^(e + b·size) = Σ_j a_j·2^(b·(size−1−j))`, i.e. `m·2^e = Σ_j a_j·2^(−b(j+1))`.  (The FBig
+produced by the Rust is compared with this pair by the correspondence.) -/
+theorem decode_float_exact (b : Nat) (a : List Int) :
+    ∃ t : Nat, (decodeFloatCoef b a).2 + (b * a.length : Nat) = t ∧ (decodeFloatCoef b a).1 * 2 ^ t = valI b a :=
+  decodeFloatCoef_exact b a
+
+example : decodeFloatCoef 5 [0, 12] = (3, -8) := by decide
 
 /-! ### cross radix -/
 
